@@ -93,30 +93,30 @@ Print Assumptions C01_source_never_stuck.
    U and the text FE of GetJoinFieldErr left abstract — each writes, for EVERY rule text, names and value, exactly the
    text of Proofs/GoRuleProofs.v: the bound on the right side, the closed or open mode, the custom message alone or the
    default wording.  A change that swaps a bound, a mode or a branch in any of them makes this proof fail. *)
-Theorem C01_rule_functions_from_source : forall (U : val -> str) (FE : str -> str -> ftext -> str) vn obj field v,
-  run_rule U FE fn_To vn obj field v = Some (to_text U FE true vn obj field v) /\
-  run_rule U FE fn_OTo vn obj field v = Some (to_text U FE false vn obj field v) /\
-  run_rule U FE fn_Ge vn obj field v = Some (one_text U true true vn obj field v) /\
-  run_rule U FE fn_Gt vn obj field v = Some (one_text U true false vn obj field v) /\
-  run_rule U FE fn_Le vn obj field v = Some (one_text U false true vn obj field v) /\
-  run_rule U FE fn_Lt vn obj field v = Some (one_text U false false vn obj field v) /\
-  run_rule U FE fn_Eq vn obj field v = Some (eq_text U true vn obj field v) /\
-  run_rule U FE fn_NoEq vn obj field v = Some (eq_text U false vn obj field v).
+Theorem C01_rule_functions_from_source : forall (orc : oracles) (U : val -> str) (FE : str -> str -> ftext -> str) (ST : str -> str) vn obj field v,
+  run_rule orc U FE ST fn_To vn obj field v = Some (to_text U FE true vn obj field v) /\
+  run_rule orc U FE ST fn_OTo vn obj field v = Some (to_text U FE false vn obj field v) /\
+  run_rule orc U FE ST fn_Ge vn obj field v = Some (one_text U true true vn obj field v) /\
+  run_rule orc U FE ST fn_Gt vn obj field v = Some (one_text U true false vn obj field v) /\
+  run_rule orc U FE ST fn_Le vn obj field v = Some (one_text U false true vn obj field v) /\
+  run_rule orc U FE ST fn_Lt vn obj field v = Some (one_text U false false vn obj field v) /\
+  run_rule orc U FE ST fn_Eq vn obj field v = Some (eq_text U true vn obj field v) /\
+  run_rule orc U FE ST fn_NoEq vn obj field v = Some (eq_text U false vn obj field v).
 Proof. exact size_rules_from_source. Qed.
 Print Assumptions C01_rule_functions_from_source.
 
 (* ... and they write nothing exactly when the model's rule function (the one the theorems above judge) reports no
    clause: the verdict of the model IS the verdict of the source text *)
-Theorem C01_rule_verdict_from_source : forall (U : val -> str) (FE : str -> str -> ftext -> str),
+Theorem C01_rule_verdict_from_source : forall (orc : oracles) (U : val -> str) (FE : str -> str -> ftext -> str) (ST : str -> str),
   (forall o f t, FE o f t <> []) -> forall vn obj field v,
-  (run_rule U FE fn_To vn obj field v = Some [] <-> rTo vn obj field v = []) /\
-  (run_rule U FE fn_OTo vn obj field v = Some [] <-> rOTo vn obj field v = []) /\
-  (run_rule U FE fn_Ge vn obj field v = Some [] <-> rGe vn obj field v = []) /\
-  (run_rule U FE fn_Gt vn obj field v = Some [] <-> rGt vn obj field v = []) /\
-  (run_rule U FE fn_Le vn obj field v = Some [] <-> rLe vn obj field v = []) /\
-  (run_rule U FE fn_Lt vn obj field v = Some [] <-> rLt vn obj field v = []) /\
-  (run_rule U FE fn_Eq vn obj field v = Some [] <-> rEq vn obj field v = []) /\
-  (run_rule U FE fn_NoEq vn obj field v = Some [] <-> rNoEq vn obj field v = []).
+  (run_rule orc U FE ST fn_To vn obj field v = Some [] <-> rTo vn obj field v = []) /\
+  (run_rule orc U FE ST fn_OTo vn obj field v = Some [] <-> rOTo vn obj field v = []) /\
+  (run_rule orc U FE ST fn_Ge vn obj field v = Some [] <-> rGe vn obj field v = []) /\
+  (run_rule orc U FE ST fn_Gt vn obj field v = Some [] <-> rGt vn obj field v = []) /\
+  (run_rule orc U FE ST fn_Le vn obj field v = Some [] <-> rLe vn obj field v = []) /\
+  (run_rule orc U FE ST fn_Lt vn obj field v = Some [] <-> rLt vn obj field v = []) /\
+  (run_rule orc U FE ST fn_Eq vn obj field v = Some [] <-> rEq vn obj field v = []) /\
+  (run_rule orc U FE ST fn_NoEq vn obj field v = Some [] <-> rNoEq vn obj field v = []).
 Proof. exact size_rules_write_iff_clause. Qed.
 Print Assumptions C01_rule_verdict_from_source.
 
